@@ -3,6 +3,7 @@
 #pragma once
 #include "runner.hpp"
 #include "gen.hpp"
+#include "../report.hpp"
 #include <unistd.h>
 #include <fcntl.h>
 #include <sys/wait.h>
@@ -93,15 +94,6 @@ inline std::string class_label(const History& h, uint64_t f) {
   return s;
 }
 
-struct Stats {
-  uint64_t evaluations = 0, nontrivial = 0, skipped_steps = 0, api_calls = 0, leak_overflow = 0;
-  std::unordered_set<uint64_t> distinct;
-  std::map<std::string, uint64_t> classes, counters, feature_counts, note_sigs;
-  std::vector<std::string> samples, note_samples;
-  std::string rule;
-  bool exhaustive = false;
-  std::vector<std::string> subspaces;
-};
 
 static const char* const feature_names[] = {
   "decoded", "chain>=2", "ml_needed", "ml_solved", "unsolvable_with>=k", "lt_k", "all_sources_received", "cb", "cb_null",
@@ -194,71 +186,5 @@ inline History minimise(History h, const PropSpec& ps, const std::string& sig, i
   }
   return h;
 }
-
-// ---- JSON helpers ---------------------------------------------------------------------------
-inline std::string jesc(const std::string& s) {
-  std::string o;
-  for (char c : s) {
-    if (c == '"') o += "\\\""; else if (c == '\\') o += "\\\\"; else if (c == '\n') o += "\\n"; else if (c == '\t') o += "\\t";
-    else if ((unsigned char)c < 0x20) { char b[8]; snprintf(b, sizeof b, "\\u%04x", c); o += b; } else o += c;
-  }
-  return o;
-}
-inline std::string jmap(const std::map<std::string, uint64_t>& m) {
-  std::string o = "{"; bool first = true;
-  for (auto& kv : m) { if (!first) o += ","; first = false; o += "\"" + jesc(kv.first) + "\":" + std::to_string(kv.second); }
-  return o + "}";
-}
-inline std::string jlist(const std::vector<std::string>& v) {
-  std::string o = "["; bool first = true;
-  for (auto& s : v) { if (!first) o += ","; first = false; o += "\"" + jesc(s) + "\""; }
-  return o + "]";
-}
-inline void write_stats(const std::string& path, const std::string& prop, const Stats& st, bool failed, const std::string& sig,
-                        const std::string& msg, const std::string& replay, const std::string& extra_json = "") {
-  FILE* f = fopen(path.c_str(), "w");
-  if (!f) return;
-  fprintf(f, "{\"property\":\"%s\",\"evaluations\":%llu,\"nontrivial\":%llu,\"distinct_nontrivial\":%zu,\"api_calls\":%llu,\"skipped_steps\":%llu,\"leak_overflow\":%llu,",
-          prop.c_str(), (unsigned long long)st.evaluations, (unsigned long long)st.nontrivial, st.distinct.size(),
-          (unsigned long long)st.api_calls, (unsigned long long)st.skipped_steps, (unsigned long long)st.leak_overflow);
-  fprintf(f, "\"classes\":%s,\"features\":%s,\"counters\":%s,\"foreign_oracle_notes\":%s,\"note_samples\":%s,\"samples\":%s,",
-          jmap(st.classes).c_str(), jmap(st.feature_counts).c_str(), jmap(st.counters).c_str(), jmap(st.note_sigs).c_str(),
-          jlist(st.note_samples).c_str(), jlist(st.samples).c_str());
-  fprintf(f, "\"rule\":\"%s\",\"exhaustive\":%s,\"subspaces\":%s,", jesc(st.rule).c_str(), st.exhaustive ? "true" : "false", jlist(st.subspaces).c_str());
-  if (!extra_json.empty()) fprintf(f, "%s,", extra_json.c_str());
-  fprintf(f, "\"failed\":%s,\"signature\":\"%s\",\"message\":\"%s\",\"replay\":\"%s\"}\n", failed ? "true" : "false", jesc(sig).c_str(),
-          jesc(msg).c_str(), jesc(replay).c_str());
-  fclose(f);
-  // distinct hashes for the union in the driver
-  std::string hp = path + ".hashes";
-  FILE* g = fopen(hp.c_str(), "wb");
-  if (g) { for (uint64_t h : st.distinct) fwrite(&h, sizeof h, 1, g); fclose(g); }
-}
-
-inline bool read_file(const std::string& path, std::string& out) {
-  FILE* f = fopen(path.c_str(), "rb");
-  if (!f) return false;
-  char buf[65536]; size_t n; out.clear();
-  while ((n = fread(buf, 1, sizeof buf, f)) > 0) out.append(buf, n);
-  fclose(f);
-  return true;
-}
-inline void write_file(const std::string& path, const std::string& s) {
-  FILE* f = fopen(path.c_str(), "w");
-  if (f) { fwrite(s.data(), 1, s.size(), f); fclose(f); }
-}
-
-// "current case" file, rewritten before every execution so that a process death leaves the
-// history that killed it
-struct CurCase {
-  int fd = -1;
-  void open(const std::string& path) { fd = ::open(path.c_str(), O_CREAT | O_TRUNC | O_WRONLY, 0644); }
-  void put(const std::string& s) {
-    if (fd < 0) return;
-    if (ftruncate(fd, 0) != 0) return;
-    ssize_t w = pwrite(fd, s.data(), s.size(), 0); (void)w;
-  }
-  void clear() { if (fd >= 0) { int r = ftruncate(fd, 0); (void)r; } }
-};
 
 }  // namespace hist
